@@ -230,6 +230,7 @@ func (r *Run) writeEvidence(ok, viol, knownHit int, knownLines []string) {
 		"distinct_nontrivial": len(constructs),
 		"rule":                "one obligation per (rule, construct) pair found by role in the type-checked SSA/AST of /repo's working tree; distinct = distinct rule:construct keys; every obligation is non-trivial in the sense that it names a concrete construct of the target and the structural condition decided for it",
 		"samples":             samples,
+		"all_obligations":     r.Obls,
 		"rules":               rules,
 		"not_ok":              nonOK,
 		"known_findings":      knownLines,
